@@ -424,7 +424,11 @@ def r7_trap_memory_survives(ctx):
         for st in sts:
             n += 1
             ts = [(norm(expand(f, t)), pol) for t, pol in enclosing_tests(st)]
-            ok = ts == [(f"{det}.has_persistence()", False)]
+            # has_persistence() is `self._persistence is not None`; either spelling (the accessor may be inlined)
+            from sa.paths import canon_test as _ct
+
+            cts = [(norm(t2), p2) for t2, p2 in (_ct(t, pol) for t, pol in enclosing_tests(st))]
+            ok = ts == [(f"{det}.has_persistence()", False)] or cts in ([(f"{det}._persistence is None", True)], [(f"{det}.has_persistence()", False)])
             ctx.check(ok, f.qual + "#memory-created-once", "the memory is created only when the detector has none" if ok else f"the detector's persistence memory is replaced under {ts}: trapped charge held from earlier steps is dropped (pixel + trapped charge is not conserved)", where=f, node=st)
     ctx.floor(n, 2)
 
